@@ -27,8 +27,8 @@ extern "C" {
 #endif
 const char *verif_property = C15_PROPERTY;
 const char *verif_class_names[] = { "wrapped_and_dropped", "dump_mid_sequence", "too_long_record", "truncated_file", "header_word_damaged", "chunk_header_damaged",
-	"record_field_damaged", "random_bytes", "not_a_dump", "old_format_header", "hash_valid_but_damaged", "print_rejected_cleanly", "print_partial_then_error", "many_records", NULL };
-enum { K_WRAP, K_MID, K_LONG, K_TRUNC, K_HDR, K_CHUNK, K_FIELD, K_RAND, K_NOTDUMP, K_OLD, K_HASHOK, K_REJ, K_PARTIAL, K_MANY };
+	"record_field_damaged", "random_bytes", "not_a_dump", "old_format_header", "hash_valid_but_damaged", "print_rejected_cleanly", "print_partial_then_error", "many_records", "two_fields_damaged", NULL };
+enum { K_WRAP, K_MID, K_LONG, K_TRUNC, K_HDR, K_CHUNK, K_FIELD, K_RAND, K_NOTDUMP, K_OLD, K_HASHOK, K_REJ, K_PARTIAL, K_MANY, K_TWOFIELDS };
 const char *verif_rule =
 	"case = blackbox size, a sequence of generated log records (function, line, priority, tags, printf format + arguments incl. over-long ones) with dumps at generated moments, "
 	"each dump printed and compared record by record; then 8-40 damaged variants of the last dump (truncation lengths biased to field boundaries, each header word, chunk size/magic words, "
@@ -268,9 +268,17 @@ extern "C" int verif_case(const uint8_t *data, size_t size, struct verif_report 
 				size_t base = HDR + 20 + (size_t)rp * 4;
 				/* chunk: [size][magic][lineno][tags][prio u8][fn_size][fn...][timespec 16][msg_len][serialised message] */
 				static const int offs[] = { 0, 4, 8, 12, 16, 17 };
-				unsigned f = vr_u8(&v) % 9; size_t off;
+				unsigned f = vr_u8(&v) % 11; size_t off = 0; bool twofields = false;
+				if (f >= 9) {	/* two fields of one record damaged together: a small chunk size AND a large function-name length */
+					static const uint32_t big[] = { 0xffffffffu, 0x7fffffffu, 0x40000000u, 1000u, 64u };
+					uint32_t cs = 20 + vr_u8(&v) % 24, fs = big[vr_u8(&v) % 5];
+					if (base + 21 <= b.size()) { memcpy(&b[base], &cs, 4); memcpy(&b[base + 17], &fs, 4); }
+					keep_hash = true; kind = "record-two-fields"; VCLASS(r, K_FIELD); VCLASS(r, K_TWOFIELDS);
+					twofields = true;
+				}
 				uint32_t fnsz = 0; if (base + 21 < b.size()) memcpy(&fnsz, &b[base + 17], 4);
-				if (f < 6) off = base + offs[f];
+				if (twofields) off = b.size();	/* nothing more to change */
+				else if (f < 6) off = base + offs[f];
 				else if (f == 6) off = base + 21 + (fnsz > 0 ? fnsz - 1 : 0);		/* the function name's terminator */
 				else if (f == 7) off = base + 21 + fnsz + 16;				/* msg_len */
 				else off = base + 21 + fnsz + 20 + vr_u8(&v) % 24;			/* inside the serialised message */
@@ -281,7 +289,7 @@ extern "C" int verif_case(const uint8_t *data, size_t size, struct verif_report 
 					if (f == 6 || f == 8) b[off] = (uint8_t)val ? (uint8_t)val : 0x41; else memcpy(&b[off], &val, 4);
 				}
 				keep_hash = true;
-				kind = f < 2 ? "chunk-header" : "record-field"; VCLASS(r, f < 2 ? K_CHUNK : K_FIELD);
+				if (!twofields) { kind = f < 2 ? "chunk-header" : "record-field"; VCLASS(r, f < 2 ? K_CHUNK : K_FIELD); }
 				(void)ws; (void)wp;
 			} else if (k <= 13) {	/* random byte runs */
 				int runs = 1 + vr_u8(&v) % 4;
